@@ -1,11 +1,53 @@
-import RoaringModel.Spec
+import RoaringModel.Lemmas.BitmapQuery
 /-!
 # C07 — order-statistic and range queries agree with the sorted set (property theorems)
+
+For every well-formed bitmap `b` (`Bitmap.WF`) and every argument, each query of the model returns the value the
+one-line definition of `Spec.lean` computes from the strictly ascending element list `Bitmap.elems b`.
 -/
 namespace Roaring.C07
 open Roaring
 
-/-- `is_empty` of the empty bitmap. -/
-theorem C07_isEmpty_new : Bitmap.isEmpty Bitmap.new = true := rfl
+theorem C07_len (b : Bitmap) (h : b.WF) : Bitmap.len b = (Bitmap.elems b).length := Bitmap.len_spec b h
+theorem C07_isEmpty (b : Bitmap) (h : b.WF) : Bitmap.isEmpty b = (Bitmap.elems b).isEmpty := Bitmap.isEmpty_spec b h
+theorem C07_contains (b : Bitmap) (h : b.WF) (v : Nat) :
+    Bitmap.contains b v = Spec.contains (Bitmap.elems b) v := Bitmap.contains_spec b h v
+theorem C07_min (b : Bitmap) (h : b.WF) : Bitmap.min? b = Spec.min? (Bitmap.elems b) := Bitmap.min?_spec b h
+theorem C07_max (b : Bitmap) (h : b.WF) : Bitmap.max? b = Spec.max? (Bitmap.elems b) := Bitmap.max?_spec b h
+
+/-- `rank(v)` is the number of elements `≤ v` -/
+theorem C07_rank (b : Bitmap) (h : b.WF) (v : Nat) (hv : v < 4294967296) :
+    Bitmap.rank b v = Spec.rank (Bitmap.elems b) v := Bitmap.rank_spec b h v hv
+
+/-- `select(n)` is the `(n+1)`-th smallest element, `None` when `n ≥ len` -/
+theorem C07_select (b : Bitmap) (h : b.WF) (n : Nat) :
+    Bitmap.select b n = Spec.select (Bitmap.elems b) n := Bitmap.select_spec b h n
+
+theorem C07_rangeCardinality (b : Bitmap) (h : b.WF) (lo hi : Bound)
+    (hlo : Bound.le u32Max lo) (hhi : Bound.le u32Max hi) :
+    Bitmap.rangeCardinality b lo hi = Spec.rangeCardinality u32Max (Bitmap.elems b) lo hi :=
+  Bitmap.rangeCardinality_spec b h lo hi hlo hhi
+
+/-- `contains_range(r)` holds iff every integer of `r` is present (vacuously for an empty `r`) -/
+theorem C07_containsRange (b : Bitmap) (h : b.WF) (lo hi : Bound)
+    (hlo : Bound.le u32Max lo) (hhi : Bound.le u32Max hi) :
+    Bitmap.containsRange b lo hi = Spec.containsRange u32Max (Bitmap.elems b) lo hi :=
+  Bitmap.containsRange_spec b h lo hi hlo hhi
+
+/-- `is_full` ⇔ the set is all of `0 ..= u32::MAX` (never executed by the correspondence: 2^32 elements) -/
+theorem C07_isFull (b : Bitmap) (h : b.WF) : Bitmap.isFull b = Spec.isFull u32Max (Bitmap.elems b) :=
+  Bitmap.isFull_spec b h
+
+/-- `rank(select(n)) = n + 1` -/
+theorem C07_rank_select (b : Bitmap) (h : b.WF) (n : Nat) (hn : n < (Bitmap.elems b).length) :
+    ∃ v, Bitmap.select b n = some v ∧ Bitmap.rank b v = n + 1 := Bitmap.rank_select b h n hn
+
+/-- `select(rank(v) - 1) = v` for every member `v` -/
+theorem C07_select_rank (b : Bitmap) (h : b.WF) (v : Nat) (hv : v ∈ Bitmap.elems b) :
+    Bitmap.select b (Bitmap.rank b v - 1) = some v := Bitmap.select_rank b h v hv
+
+/-- non-vacuity: a well-formed two-chunk value (array + bitset) exists and the queries compute on it -/
+example : Bitmap.rank (Bitmap.insertRange (Bitmap.insert [] 7).1 (.incl 65536) (.excl 70000)).1 65540 = 6 := by
+  decide +kernel
 
 end Roaring.C07
